@@ -162,10 +162,6 @@ theorem C02_slice_alias {s : State} {d src : Nat} {off cnt : Int} {p : View} {o 
 example : view? (step (run init [.malloc 0 8 2 none, .slice 1 0 2 5]) (.slice 2 1 1 (-1))).1 2 = some ⟨2, 6, 8, 2⟩ := by
   decide
 
-theorem view?_of_same {s s' : State} (hm : s'.mems = s.mems) (hv : s'.vars = s.vars) (x : Nat) :
-    view? s' x = view? s x := by
-  unfold view?; rw [hm, hv]
-
 /-- End to end: take a slice `d = src.slice(off, cnt)`, write `k` elements at element `i` through the
     slice, then read `k` elements at element `off + i` through the PARENT: the read succeeds and
     returns exactly the bytes written. -/
@@ -192,7 +188,7 @@ theorem C02_slice_write_parent_read {s s1 s2 : State} (h : Inv s) {d src cap : N
   obtain ⟨w0, w1, w2, w3, wm, wv, wspec⟩ := copyFromHost_spec hi1 hc h2
   have hi2 : Inv s2 := by
     have := step_inv hi1 (.copyFromHost d data k i); rw [h2] at this; exact this
-  have hp2 : view? s2 src = some p := by rw [view?_of_same wm wv]; exact hp1
+  have hp2 : view? s2 src = some p := by rw [view_of_same wm wv]; exact hp1
   have hcb : countBytes c k = (p.esz : Int) * k := by unfold countBytes; rw [if_neg hk, he]
   have hcbp : countBytes p k = (p.esz : Int) * k := by unfold countBytes; rw [if_neg hk]
   rw [he] at w1 w2
@@ -258,7 +254,7 @@ theorem C02_parent_write_slice_read {s s1 s2 s3 : State} (h : Inv s) {d src cap 
   obtain ⟨w0, w1, w2, w3, wm, wv, wspec⟩ := copyFromHost_spec hi1 hp1 h2
   have hi2 : Inv s2 := by
     have := step_inv hi1 (.copyFromHost src data k (off + i)); rw [h2] at this; exact this
-  have hc2 : view? s2 d = some c := by rw [view?_of_same wm wv]; exact hc
+  have hc2 : view? s2 d = some c := by rw [view_of_same wm wv]; exact hc
   obtain ⟨_, r0, r1, r2, out, ro, rl, rspec⟩ := copyToHost_spec hi2 hc2 h3
   have hcb : countBytes c k = (p.esz : Int) * k := by unfold countBytes; rw [if_neg hk, he]
   have hcbp : countBytes p k = (p.esz : Int) * k := by unfold countBytes; rw [if_neg hk]
